@@ -181,6 +181,10 @@ impl Oplog {
                         }
                         let res = Entry::decode(entry_outcome.state)?;
                         entries.push(res.0);
+                        // New entries must be appended behind the ones found here
+                        outcome.oplog.entries_length += 1;
+                        outcome.oplog.entries_byte_length +=
+                            (entries_buff.len() - res.1.len()) as u64;
                         entries_buff = res.1;
                         partials.push(entry_outcome.partial_bit);
                     }
